@@ -25,6 +25,9 @@ pub struct CsvOpts {
     pub quote: u8,
     pub escape: u8,
     pub double_quote: bool,
+    /// reader is given the escape byte although the writer doubles quotes (no value contains the
+    /// escape byte, so the text stays unambiguous): quote doubling must still be honoured
+    pub reader_escape_with_dq: bool,
     /// None = CRLF
     pub terminator: Option<u8>,
     pub header: bool,
@@ -50,6 +53,7 @@ impl CsvOpts {
             quote: b'"',
             escape: b'\\',
             double_quote: true,
+            reader_escape_with_dq: false,
             terminator: Some(b'\n'),
             header: true,
             header_validation: false,
@@ -292,6 +296,9 @@ pub fn gen_case(rng: &mut Rng) -> CsvCase {
             }
         }
     }
+    if o.double_quote && !has(o.escape) && o.escape != o.delimiter && o.escape != o.quote && Some(o.escape) != o.terminator && rng.chance(1, 3) {
+        o.reader_escape_with_dq = true;
+    }
     if o.quote_style == 3 {
         let specials = [o.delimiter, o.quote, b'\r', b'\n', o.terminator.unwrap_or(b'\n'), o.escape];
         let plain_delim = matches!(o.delimiter, b',' | b';' | b'|' | b'\t');
@@ -360,7 +367,7 @@ pub fn reader_builder(c: &CsvCase) -> ReaderBuilder {
         .with_delimiter(o.delimiter)
         .with_quote(o.quote)
         .with_batch_size(o.batch_size);
-    if !o.double_quote {
+    if !o.double_quote || o.reader_escape_with_dq {
         b = b.with_escape(o.escape);
     }
     match o.terminator {
